@@ -88,7 +88,10 @@ def gen_case(rng, maxlen):
             ops.append(["bylabel", rng.choice("ABCD")])
         else:
             ops.append(["getint", idx()])
-    return dict(pool=pool, ordered=ordered, order=order, prelabels=prelabels, ops=ops)
+    c = dict(pool=pool, ordered=ordered, order=order, prelabels=prelabels, ops=ops)
+    if rng.random() < 0.3:
+        c["t_slew"] = rng.choice([30.0, 0.0, 10.5])     # built with t_overwrite=True: re-times what is given at construction; later members keep their own times
+    return c
 
 
 def exhaustive_cases(maxops):
